@@ -32,10 +32,22 @@ def programs(chk, n_generated=None):
     return acc + _cache["rej"][:40] + gen
 
 
+def uses_var(x, name):
+    if isinstance(x, tuple):
+        if x[0] == "var" and x[2] == name:
+            return True
+        return any(uses_var(y, name) for y in x[1:])
+    if isinstance(x, list):
+        return any(uses_var(y, name) for y in x)
+    return False
+
+
 # ---------------------------------------------------------------------------------------------------
 # trees
 # ---------------------------------------------------------------------------------------------------
 INT, STR, BOOL = "Int", "Str", "Bool"
+LINT, LSTR = "List[Int]", "List[Str]"
+ELEM = {LINT: INT, LSTR: STR}
 
 
 class Prog:
@@ -54,6 +66,9 @@ class Gen:
         self.classes = {}   # name -> dict(args=[(n,ty)], fields=[(n,ty,init,fin)], methods={name: fun}, parent=None, exc=False)
         self.funcs = {}     # name -> dict(params=[(n,ty,default)], ret=ty|None, body=[stmts], last=expr|None, raises=[cls])
         self.excs = []
+        self.lists = {}     # literal list variable -> length
+        self.ho = None      # name of the higher-order helper function, once used
+        self.no_tern = 0    # > 0 while generating a position where the pinned tree mis-prints a conditional expression (finding C02)
 
     def fresh(self, prefix):
         self.n += 1
@@ -77,6 +92,28 @@ class Gen:
             return self.lit(ty)
         sub = lambda t: self.expr(t, env, depth - 1)
         k = r.random()
+        if ty in (INT, STR) and r.random() < 0.10:
+            ls = [v for v in env if v[1] in ELEM and ELEM[v[1]] == ty and v[0] in self.lists]
+            if ls:
+                l = r.choice(ls)
+                return ("index", ty, l[0], r.randrange(self.lists[l[0]]))
+        if ty in (INT, STR) and r.random() < 0.08 and not self.no_tern:
+            self.no_tern += 1
+            t = ("tern", ty, self.expr(BOOL, env, depth - 1), sub(ty), sub(ty))
+            self.no_tern -= 1
+            return t
+        if ty == INT and r.random() < 0.06:
+            return ("pow", INT, sub(INT), r.choice([2, 2, 3]))
+        if ty == INT and r.random() < 0.06 and depth >= 1:
+            if self.ho is None:
+                self.ho = self.fresh("ho")
+            z = self.fresh("z")
+            self.no_tern += 1
+            body = self.expr(INT, list(env) + [(z, INT, False)], 1)
+            self.no_tern -= 1
+            if not uses_var(body, z):
+                body = ("bin", INT, r.choice(["+", "*", "-"]), ("var", INT, z), body)
+            return ("hocall", INT, self.ho, z, body, sub(INT))
         if ty == INT:
             if k < 0.55:
                 op = r.choice(["+", "-", "*", "+", "-"])
@@ -142,6 +179,10 @@ class Gen:
         r = self.rng
         k = r.random()
         mut = [v for v in env if v[2] and v[1] in (INT, STR, BOOL)]
+        if env and r.random() < 0.24:
+            new = self.new_stmt(env, in_fun, depth)
+            if new is not None:
+                return new
         if k < 0.22 or not env:
             ty = r.choice([INT, INT, STR, BOOL])
             name = self.fresh("v")
@@ -174,7 +215,9 @@ class Gen:
         if k < 0.82:
             name = self.fresh("m")
             ty = r.choice([INT, STR])
+            self.no_tern += 1
             scrut = self.expr(INT, env, 1)
+            self.no_tern -= 1
             arms = [(r.randint(0, 6), self.expr(ty, env, 1)) for _ in range(r.randint(1, 3))]
             seen, arms2 = set(), []
             for a in arms:
@@ -185,7 +228,10 @@ class Gen:
         if k < 0.87:
             name = self.fresh("t")
             ty = r.choice([INT, STR])
-            return ("ifdef", name, ty, self.expr(BOOL, env, 1), self.expr(ty, env, 1), self.expr(ty, env, 1)), env + [(name, ty, True)]
+            self.no_tern += 1
+            st = ("ifdef", name, ty, self.expr(BOOL, env, 1), self.expr(ty, env, 1), self.expr(ty, env, 1))
+            self.no_tern -= 1
+            return st, env + [(name, ty, True)]
         if k < 0.93 and not in_fun:
             cs = [c for c, d in self.classes.items() if not d["exc"]]
             if cs:
@@ -212,6 +258,52 @@ class Gen:
             args = [self.expr(t, env, 1) for _, t, _ in d["params"]]
             return ("handledef", name, f, args, d["raises"][0], self.expr(INT, env, 0)), env + [(name, INT, True)]
         return ("print", self.expr(INT, env)), env
+
+    def new_stmt(self, env, in_fun, depth):
+        """tuples, list literals, list builders, iteration over lists, unary minus, isa"""
+        r = self.rng
+        k = r.random()
+        if k < 0.2:
+            tys = [r.choice([INT, STR, BOOL]) for _ in range(2)]
+            names = [self.fresh("u"), self.fresh("u")]
+            fin = r.random() < 0.3
+            return ("tupledef", names, tys, [self.expr(t, env, 1) for t in tys], fin), env + [(n, t, not fin) for n, t in zip(names, tys)]
+        if k < 0.4:
+            ety = r.choice([INT, INT, STR])
+            name = self.fresh("l")
+            es = [self.expr(ety, env, 1) for _ in range(r.randint(1, 3))]
+            self.lists[name] = len(es)
+            return ("listdef", name, ety, es), env + [(name, LINT if ety == INT else LSTR, False)]
+        ls = [v for v in env if v[1] in ELEM]
+        if k < 0.6 and ls:
+            src = r.choice(ls)
+            bv, name = self.fresh("b"), self.fresh("l")
+            inner = list(env) + [(bv, ELEM[src[1]], False)]
+            self.no_tern += 1
+            elem = self.expr(ELEM[src[1]], inner, 1)
+            self.no_tern -= 1
+            if not uses_var(elem, bv):
+                elem = ("bin", ELEM[src[1]], "+", ("var", ELEM[src[1]], bv), elem)
+            cond = None
+            if r.random() < 0.6:
+                cond = ("bin", BOOL, r.choice(["<", ">", "!=", "="]), ("var", INT, bv), self.expr(INT, env, 0)) if src[1] == LINT else ("bin", BOOL, "!=", ("var", STR, bv), self.lit(STR))
+                if r.random() < 0.3:
+                    cond = ("bin", BOOL, r.choice(["and", "or"]), cond, self.expr(BOOL, env, 0))
+            return ("builddef", name, src[1], src[0], bv, elem, cond), env + [(name, src[1], False)]
+        if k < 0.8 and ls and depth > 0:
+            src = r.choice(ls)
+            i = self.fresh("e")
+            body, _ = self.block(env + [(i, ELEM[src[1]], False)], r.randint(1, 2), in_fun, depth - 1)
+            return ("forin", i, src[0], body), env
+        if k < 0.9:
+            name = self.fresh("n")
+            return ("negdef", name, self.expr(INT, env, 1)), env + [(name, INT, True)]
+        objs = [v for v in env if v[1] in self.classes and not self.classes[v[1]]["exc"]]
+        cs = [c for c, d in self.classes.items() if not d["exc"]]
+        if objs and cs:
+            name = self.fresh("q")
+            return ("isadef", name, r.choice(objs)[0], r.choice(cs)), env + [(name, BOOL, True)]
+        return None
 
     # ---------------------------------------------------------------- definitions
     def fun(self, env0=()):
@@ -241,6 +333,8 @@ class Gen:
             ints = [p for p in params if p[1] == INT]
             cond = ("bin", BOOL, ">", ("var", INT, ints[0][0]) if ints else ("lit", INT, r.randint(0, 5)), ("lit", INT, r.randint(0, 8)))
             body.append(("raiseif", cond, e, "boom"))
+        if body and r.random() < 0.3:
+            body.insert(r.randrange(len(body) + 1) if not raises else 0, ("retif", self.expr(BOOL, env, 1), self.expr(ret, env, 1)))
         last = self.expr(ret, env2)
         self.funcs[name] = dict(params=params, ret=ret, body=body, last=last, raises=raises)
         return name
@@ -290,7 +384,10 @@ class Gen:
             items.append(("fun", self.fun()))
         body, _ = self.block([], self.size, None, 2)
         items += [("stmt", s) for s in body]
+        if self.ho is not None:
+            items.insert(0, ("ho", self.ho))
         p = Prog(items, None, self.classes, self.funcs)
+        p.ho = self.ho
         p.text = Printer(p).text()
         return p
 
@@ -313,6 +410,9 @@ class Printer:
                 self.klass(x)
             elif kind == "fun":
                 self.fun(x, self.p.funcs[x], 0, None)
+            elif kind == "ho":
+                self.lines.append("def %s(fn: Int -> Int, v: Int) -> Int => fn(v)" % x)
+                self.lines.append("")
             else:
                 self.stmt(x, 0)
         return "\n".join(self.lines) + "\n"
@@ -401,6 +501,24 @@ class Printer:
         elif k == "raiseif":
             L.append("%sif %s then" % (pad, self.e(s[1])))
             L.append("%s    raise %s(\"%s\")" % (pad, s[2], s[3]))
+        elif k == "retif":
+            L.append("%sif %s then return %s" % (pad, self.e(s[1]), self.e(s[2])))
+        elif k == "tupledef":
+            _, names, tys, es, fin = s
+            L.append("%sdef %s(%s) := (%s)" % (pad, "fin " if fin else "", ", ".join(names), ", ".join(self.e(e) for e in es)))
+        elif k == "listdef":
+            L.append("%sdef %s := [%s]" % (pad, s[1], ", ".join(self.e(e) for e in s[3])))
+        elif k == "builddef":
+            _, name, lty, src, bv, elem, cond = s
+            L.append("%sdef %s: %s := [%s | %s in %s%s]" % (pad, name, lty, self.e(elem), bv, src, "" if cond is None else ", " + self.e(cond)))
+        elif k == "forin":
+            L.append("%sfor %s in %s do" % (pad, s[1], s[2]))
+            for t in s[3]:
+                self.stmt(t, ind + 1)
+        elif k == "negdef":
+            L.append("%sdef %s: Int := -(%s)" % (pad, s[1], self.e(s[2])))
+        elif k == "isadef":
+            L.append("%sdef %s: Bool := %s isa %s" % (pad, s[1], s[2], s[3]))
         else:
             raise ValueError(k)
 
@@ -428,6 +546,15 @@ class Printer:
             return "%s.%s" % (x[2], x[3])
         if k == "fstr":
             return '"%s{%s}%s"' % (x[2][0], self.e(x[2][1]), x[2][2])
+        if k == "index":
+            return "%s[%d]" % (x[2], x[3])
+        if k == "tern":
+            return "(if %s then %s else %s)" % (self.e(x[2]), self.e(x[3]), self.e(x[4]))
+        if k == "pow":
+            s = "%s ^ %d" % (self.e(x[2], False), x[3])
+            return s if top else "(" + s + ")"
+        if k == "hocall":
+            return "%s(\\%s: Int => %s, %s)" % (x[2], x[3], self.e(x[4]), self.e(x[5]))
         raise ValueError(k)
 
 
@@ -437,6 +564,11 @@ class Printer:
 class Raised(Exception):
     def __init__(self, cls):
         self.cls = cls
+
+
+class Returned(Exception):
+    def __init__(self, value):
+        self.value = value
 
 
 class Obj:
@@ -528,6 +660,35 @@ class Interp:
         elif k == "raiseif":
             if self.e(s[1], env):
                 raise Raised(s[2])
+        elif k == "retif":
+            if self.e(s[1], env):
+                raise Returned(self.e(s[2], env))
+        elif k == "tupledef":
+            vals = [self.e(e, env) for e in s[3]]
+            for n, v in zip(s[1], vals):
+                env[n] = v
+        elif k == "listdef":
+            env[s[1]] = [self.e(e, env) for e in s[3]]
+        elif k == "builddef":
+            _, name, lty, src, bv, elem, cond = s
+            out = []
+            for v in env[src]:
+                local = dict(env)
+                local[bv] = v
+                if cond is None or self.e(cond, local):
+                    out.append(self.e(elem, local))
+            env[name] = out
+        elif k == "forin":
+            for v in list(env[s[2]]):
+                local = dict(env)
+                local[s[1]] = v
+                for t in s[3]:
+                    self.stmt(t, local)
+                self.merge(env, local)
+        elif k == "negdef":
+            env[s[1]] = -self.e(s[2], env)
+        elif k == "isadef":
+            env[s[1]] = self.is_a(env[s[2]].cls, s[3])
 
     def merge(self, env, local):
         """block scoping: definitions of the block vanish, reassignments of outer names persist"""
@@ -557,8 +718,11 @@ class Interp:
             env["self"] = this
         for i, (n, t, default) in enumerate(d["params"]):
             env[n] = args[i] if i < len(args) else self.e(default, {})
-        for s in d["body"]:
-            self.stmt(s, env)
+        try:
+            for s in d["body"]:
+                self.stmt(s, env)
+        except Returned as ret:
+            return ret.value
         return self.e(d["last"], env)
 
     def e(self, x, env):
@@ -592,4 +756,15 @@ class Interp:
             return o.f[x[3]]
         if k == "fstr":
             return x[2][0] + self.show(self.e(x[2][1], env)) + x[2][2]
+        if k == "index":
+            return env[x[2]][x[3]]
+        if k == "tern":
+            return self.e(x[3], env) if self.e(x[2], env) else self.e(x[4], env)
+        if k == "pow":
+            return self.e(x[2], env) ** x[3]
+        if k == "hocall":
+            arg = self.e(x[5], env)
+            local = dict(env)
+            local[x[3]] = arg
+            return self.e(x[4], local)
         raise ValueError(k)
